@@ -149,6 +149,9 @@ def df_menu():
         add("split", c, lambda d, a, c=c: d.split(c))
         add("aggregate", c, lambda d, a, c=c: _grouped(d, c, lambda g: g.aggregate(n=di.count(), x=di.first("i"), y=lambda x: x.nrow)))
         add("modify", f"grouped:{c}", lambda d, a, c=c: _grouped(d, c, lambda g: g.modify(m=lambda x: x.nrow)))
+        # functions that overwrite the group they are handed: the frame the method was called on still has to be left alone
+        add("modify", f"grouped, mutating function:{c}", lambda d, a, c=c: _grouped_same(d, c, lambda g: g.modify(m=_overwriting)))
+        add("aggregate", f"mutating function:{c}", lambda d, a, c=c: _grouped_same(d, c, lambda g: g.aggregate(m=_overwriting, x=di.first("i"))))
         for j in ("left_join", "inner_join", "semi_join", "anti_join", "full_join"):
             add(j, c, lambda d, a, c=c, j=j: getattr(d, j)(a[0], c), 1)
     add("sort", "two keys", lambda d, a: d.sort(s=1, f=-1))
@@ -158,6 +161,11 @@ def df_menu():
     add("filter", "callable", lambda d, a: d.filter(lambda x: x.i >= 0))
     add("filter", "eq", lambda d, a: d.filter(b=True))
     add("filter_out", "mask", lambda d, a: d.filter_out(np.arange(d.nrow) % 2 == 0))
+    # a row condition AND column=value pairs in one call; the condition is an argument's column / the receiver's own column
+    add("filter", "mask+eq", lambda d, a: d.filter(a[0].b, s="a"), 1)
+    add("filter", "callable+eq", lambda d, a: d.filter(lambda x: x.b, s="a"))
+    add("filter_out", "mask+eq", lambda d, a: d.filter_out(a[0].b, s="a"), 1)
+    add("filter_out", "callable+eq", lambda d, a: d.filter_out(lambda x: x.b, s="a"))
     add("filter_out", "eq", lambda d, a: d.filter_out(s="a"))
     add("slice", "rows", lambda d, a: d.slice(rows=list(range(d.nrow))[::-1]))
     add("slice", "all", lambda d, a: d.slice())
@@ -208,6 +216,21 @@ def df_menu():
         add(f"write_{fmt}", "", lambda d, a, fmt=fmt, sel=sel: _write_read(d.select(*sel), fmt, False))
         add(f"read_{fmt}", "", lambda d, a, fmt=fmt, sel=sel: _write_read(d.select(*sel), fmt, True))
     return m
+
+
+def _overwriting(x):
+    n = x.nrow
+    x.i[:] = 0
+    x.f[:] = 0.5
+    return n
+
+
+def _grouped_same(d, c, f):
+    """Group the receiver itself (group_by marks and returns the receiver), call, remove the mark."""
+    try:
+        return f(d.group_by(c))
+    finally:
+        d._group_colnames = ()
 
 
 def _grouped(d, c, f):
